@@ -242,7 +242,33 @@ func (g *qGen) genOrder(w *qWorld, t *qTable) qQuery {
 		ord = append(ord, a+"."+t.cols[ci]+d[0]+np[0])
 		cord = append(cord, fmt.Sprintf("mkO (OSel %d) %s %s", ci, d[1], np[1]))
 	}
-	sql := "SELECT " + strings.Join(items, ", ") + " FROM " + t.name + " AS " + a + " ORDER BY " + strings.Join(ord, ", ")
+	from, fromCoq := t.name+" AS "+a, fmt.Sprintf("(SrcTable %d %s)", len(t.cols), t.coq)
+	if g.r.Intn(4) == 0 {
+		// the sorted table is itself the result of an inner ORDER BY / OFFSET / LIMIT: what the inner clauses
+		// leave behind (retained sort values, the offset) must not leak into the outer ones.  The inner
+		// order is over all columns, so that rows which tie are identical and the kept multiset is determined.
+		var io, ico, icols, iitems []string
+		for i, c := range t.cols {
+			io = append(io, "i."+c)
+			ico = append(ico, fmt.Sprintf("mkO (OSel %d) Asc None", i))
+			icols = append(icols, "i."+c)
+			iitems = append(iitems, fmt.Sprintf("SExpr (ECol %d)", i))
+		}
+		n := len(t.rows)
+		k := []int{0, 1, 2, n / 2, n - 1, n}[g.r.Intn(6)]
+		if k < 0 {
+			k = 0
+		}
+		ilim, iclim := "", "None"
+		if g.r.Intn(3) == 0 {
+			m := []int{1, 2, n / 2, n}[g.r.Intn(4)]
+			ilim, iclim = fmt.Sprintf(" LIMIT %d", m), fmt.Sprintf("(Some (LimRows (%d), false))", m)
+		}
+		from = fmt.Sprintf("(SELECT %s FROM %s AS i ORDER BY %s%s OFFSET %d) AS %s", strings.Join(icols, ", "), t.name, strings.Join(io, ", "), ilim, k, a)
+		fromCoq = fmt.Sprintf("(SrcSub (Q (BSelect (SrcTable %d %s) None None None %s false) %s (Some (%d)) %s))", len(t.cols), t.coq, coqList(iitems), coqList(ico), k, iclim)
+		q.shape = "derived-offset"
+	}
+	sql := "SELECT " + strings.Join(items, ", ") + " FROM " + from + " ORDER BY " + strings.Join(ord, ", ")
 	n := len(t.rows)
 	lim, clim, off, coff := "", "None", "", "None"
 	if g.r.Intn(4) != 0 {
@@ -278,7 +304,7 @@ func (g *qGen) genOrder(w *qWorld, t *qTable) qQuery {
 		coff = fmt.Sprintf("(Some (%d))", k)
 	}
 	q.sql = sql + lim + off
-	q.coq = fmt.Sprintf("(Q (BSelect (SrcTable %d %s) None None None %s false) %s %s %s)", len(t.cols), t.coq, coqList(citems), coqList(cord), coff, clim)
+	q.coq = fmt.Sprintf("(Q (BSelect %s None None None %s false) %s %s %s)", fromCoq, coqList(citems), coqList(cord), coff, clim)
 	if q.shape == "" {
 		q.shape = "order"
 	}
